@@ -148,6 +148,25 @@ CHECKS = {
          "validated by TLC against CyclesOK.",
     note="bit-identity is judged on the deep public state; first-reload failures of corpus objects of another format are recorded as observations (domain of C02/C01)",
     technique="TLA+ format model (Formats.tla, CyclesOK) + TLC validation of three-cycle save/reload executions"),
+ "C03": dict(
+    category="exploration", design_ref="DESIGN.md section 6 C03",
+    text="Layouts.tla holds the published fixed-width column tables (SDF counts/atom/bond, PDB ATOM/CONECT, GRO, CRD, FCHK headers, "
+         "Cube) and per format the loaded attributes with their prescribed unit; TLC checks the tables (cursor state machine: no "
+         "gap, no overlap; literals fit) and exports them; a generic renderer that interprets the tables writes files of 15 "
+         "formats from random tagged models (sizes/magnitudes chosen so that neighbouring fields touch, layout variants), the real "
+         "readers load them and TLC validates that every attribute's relation descriptor is `same`.",
+    note="program logs (Gaussian/ORCA/Q-Chem/CP2K logs, GAMESS punch) have no published layout to transcribe and are not covered here; molden/molekel are rendered in C05; the independent writer is a trusted transcription of the public format descriptions",
+    technique="TLA+ layout tables (Layouts.tla) exported by TLC drive an independent writer; TLC validates relation descriptors of loaded objects"),
+ "C04": dict(
+    category="exploration", design_ref="DESIGN.md section 6 C04",
+    text="The unit each format prescribes per quantity is data in Layouts.tla (UnitTableTotal checked by TLC) and the conversion "
+         "constants are a TLA+ table of scaled integers derived from independently stated CODATA values (decimal consistency "
+         "checked by TLC); TLC validates (a) dimensional attributes of independently rendered files of 15 formats, (b) pairwise "
+         "agreement of coordinates/cell vectors/masses of one model rendered in every format carrying them, (c) unit classes of "
+         "masses/dipoles/energies/gradients of GAMESS, Q-Chem, ORCA, FCHK, CHARMM and extended-XYZ files against the numbers "
+         "printed in the files, (d) the ten constants of iodata.utils to 2e-8 relative.",
+    note="CODATA 2018 values are stated in the harness; unit classes of program-log quantities use isotopic masses and the printed numbers",
+    technique="TLA+ unit/constant tables checked with TLC + TLC validation of cross-format and file-vs-object unit relations"),
 }
 NOT_YET = "check not built yet in this round (planned, see DESIGN.md section 6)"
 
